@@ -12,7 +12,7 @@ import hashlib, os, struct, subprocess, sys
 from core import Case
 
 PROP = 'C01'
-COQ_FILES = ['Extract/C01.v', 'Properties/C01.v']
+COQ_FILES = ['Extract/C01.v', 'Glue/WireGlue.v', 'Properties/C01.v']
 DRIVER = 'c01'
 IMPL = 'harness/impl/c01_impl.py'
 ALLOWED_AXIOMS = []
@@ -822,6 +822,11 @@ def gen_cases(rng, tier):
     for n_out in ([0, 252, 253, 254, 300] if not big else [0, 251, 252, 253, 254, 255, 300, 1000]):
         kinds = ['p2wpkh', 'p2pkh', 'p2sh_p2wsh']
         emit(gen_tx(rng, kinds, n_out=n_out), 'api', 'outs_%d' % n_out)
+    # ---- output script lengths across the 2-byte CompactSize boundary (the preimages length-prefix every script)
+    for ln in ([65534, 65535, 65536] if not big else [252, 253, 254, 65534, 65535, 65536, 70000]):
+        tx = gen_tx(rng, ['p2wpkh', 'p2pkh'], n_out=2)
+        tx['outs'][0] = (0, b'\x6a' + b'\x51' * (ln - 1))
+        emit(tx, 'api', 'outscript_len_%d' % ln, all_ht=False)
     for _ in range(40 if big else 8):
         kinds = [rng.choice(KINDS) for _ in range(rng.randrange(3, 7))]
         emit(gen_tx(rng, kinds, n_out=rng.choice([1, 2])), 'api', 'single_oob')
